@@ -10,7 +10,10 @@
    all binary kinds in the four invocation modes (operator, binary / elementwise_*, left
    assign, right assign - every variable/constant pairing), both matrix multiplications, map /
    map_mut with scalar closures, from_iter of a mapped record iterator (row / column major,
-   tensor <-> matrix) and from_iters::<2>.  Whenever the container run completes, the
+   tensor <-> matrix), from_iters::<2>, and containers whose SOURCE is a view of another
+   container (OView: the column-major interop matrix over a transposed record tensor, the
+   dimension-swapped TensorAccess tensor, detached constants copies with relabelled indexes -
+   model-wise a permutation / relabelling of the element list).  Whenever the container run completes, the
    element-by-element run completes as well (derived, not assumed), every element has the
    same value and the same constant-ness, and every derivative agrees.  The one hypothesis:
    the closures handed to map / from_iter / from_iters only mention the element and constants
